@@ -23,15 +23,16 @@ Import ListNotations.
 Record flags := mkFlags { f_always : bool; f_never : bool; f_dontdisc : bool }.
 
 (* handshake phases a client can be parked in, as far as the harness distinguishes them *)
-Inductive phase := PSec | PInit | PNormal.
+Inductive phase := PHold | PSec | PInit | PNormal.   (* PHold: newClientHook said RFB_CLIENT_ON_HOLD *)
 
-Record client := mkClient { k_rev : bool; k_phase : phase; k_open : bool }.
+Record client := mkClient { k_rev : bool; k_phase : phase; k_open : bool;
+                            k_gone : bool  (* the peer has gone away while the client was on hold: not noticed yet *) }.
 
 Definition is_normal (c : client) : bool := match k_phase c with PNormal => true | _ => false end.
 Definition live_normal (c : client) : bool := k_open c && is_normal c.
 
-Definition close (c : client) : client := mkClient (k_rev c) (k_phase c) false.
-Definition set_phase (c : client) (p : phase) : client := mkClient (k_rev c) p (k_open c).
+Definition close (c : client) : client := mkClient (k_rev c) (k_phase c) false (k_gone c).
+Definition set_phase (c : client) (p : phase) : client := mkClient (k_rev c) p (k_open c) (k_gone c).
 
 (* the condition of the outer if *)
 Definition exclusive (fl : flags) (rev shared : bool) : bool :=
@@ -76,18 +77,29 @@ Definition client_init (fl : flags) (l : list client) (i : nat) (shared : bool) 
 
 Inductive op :=
   | OConn (rev : bool)          (* new connection, version exchanged: parked in RFB_SECURITY_TYPE *)
+  | OConnHold (rev : bool)      (* newClientHook returns RFB_CLIENT_ON_HOLD: stays in RFB_PROTOCOL_VERSION, not served *)
+  | OConnRefuse (rev : bool)    (* newClientHook returns RFB_CLIENT_REFUSE: closed at once *)
+  | ORelease (i : nat)          (* rfbStartOnHoldClient: the pending version line is processed *)
   | OAdv (i : nat)              (* security type None chosen: RFB_INITIALISATION *)
   | OInit (i : nat) (shared : bool)
   | ODrop (i : nat).            (* the peer goes away *)
 
 Definition step (fl : flags) (l : list client) (o : op) : list client :=
   match o with
-  | OConn rev => l ++ [mkClient rev PSec true]
+  | OConn rev => l ++ [mkClient rev PSec true false]
+  | OConnHold rev => l ++ [mkClient rev PHold true false]
+  | OConnRefuse rev => l ++ [mkClient rev PHold false false]
+  | ORelease i =>
+      update l i (fun c => if k_open c && match k_phase c with PHold => true | _ => false end
+                           then (if k_gone c then close c else set_phase c PSec) else c)
   | OAdv i =>
       update l i (fun c => if k_open c && match k_phase c with PSec => true | _ => false end
                            then set_phase c PInit else c)
   | OInit i shared => client_init fl l i shared
-  | ODrop i => update l i close
+  | ODrop i =>
+      (* a client on hold is not read from: the server only notices once it is released *)
+      update l i (fun c => if k_open c && match k_phase c with PHold => true | _ => false end
+                           then mkClient (k_rev c) (k_phase c) true true else close c)
   end.
 
 Definition run (fl : flags) (l : list client) (ops : list op) : list client := fold_left (step fl) ops l.
@@ -96,6 +108,7 @@ Definition run (fl : flags) (l : list client) (ops : list op) : list client := f
 Definition obs_code (c : client) : Z :=
   if k_open c then
     match k_phase c with
+    | PHold => c14_RFB_PROTOCOL_VERSION
     | PSec => c14_RFB_SECURITY_TYPE
     | PInit => c14_RFB_INITIALISATION
     | PNormal => c14_RFB_NORMAL
